@@ -6,6 +6,7 @@ package libp2p
 // read results.  Header maps: written and read back through the real metadataStream.
 
 import (
+	"sync"
 	"bytes"
 	"context"
 	"encoding/binary"
@@ -58,6 +59,30 @@ type c13In struct {
 	Chunk  int        `json:"chunk"` // 0 = all at once, n>0 = n bytes at a time, -1 = random splits
 	Header   string   `json:"header,omitempty"`
 	IsHeader bool     `json:"is_header,omitempty"`
+	// the writes (all of type msg) are issued at the same time on one stream whose transport is
+	// not taking bytes yet: the first is inside the transport's Write, the others queue behind it,
+	// then the transport drains.  Order among them is not defined; the harness lists what was read
+	// in the order of the writes it equals (anything left over last).
+	Concurrent bool `json:"concurrent,omitempty"`
+}
+
+// a transport that takes no bytes until released
+type c13GateW struct {
+	c13Buf
+	mu      sync.Mutex
+	gate    chan struct{}
+	entered chan struct{}
+}
+
+func (g *c13GateW) Write(p []byte) (int, error) {
+	select {
+	case g.entered <- struct{}{}:
+	default:
+	}
+	<-g.gate
+	g.mu.Lock()
+	defer g.mu.Unlock()
+	return g.c13Buf.Write(p)
 }
 type c13Read struct {
 	T     string `json:"t"` // data | status | oknodata | nodata | malformed | toolarge | truncated | inner-err
@@ -218,6 +243,7 @@ func c13HeaderViaWrapper(wire []byte) (p2p.Header, bool) {
 }
 
 func c13Run(in c13In, rng *vrng) (obs c13Obs) {
+	inWrites := in.Writes
 	obs.Reads = []c13Read{}
 	obs.WriteErr = []string{}
 	defer func() {
@@ -255,6 +281,45 @@ func c13Run(in c13In, rng *vrng) (obs c13Obs) {
 	ws := newStream(w, nil, nil)
 	ms := newMetadataStream(w)
 	var types []string
+	if in.Concurrent {
+		gw := &c13GateW{gate: make(chan struct{}), entered: make(chan struct{}, 1)}
+		cs := newStream(gw, nil, nil)
+		errs := make([]error, len(in.Writes))
+		var wg sync.WaitGroup
+		for i, wr := range in.Writes {
+			m := c13New(wr.Ty)
+			pb, _ := hex.DecodeString(wr.P)
+			_ = proto.Unmarshal(pb, m)
+			types = append(types, wr.Ty)
+			wg.Add(1)
+			go func(i int, m proto.Message) {
+				defer wg.Done()
+				errs[i] = cs.WriteMsg(ctx, m)
+			}(i, m)
+			if i == 0 {
+				select {
+				case <-gw.entered:
+				case <-time.After(2 * time.Second):
+				}
+			} else {
+				time.Sleep(5 * time.Millisecond)
+			}
+		}
+		time.Sleep(20 * time.Millisecond)
+		close(gw.gate)
+		wg.Wait()
+		time.Sleep(10 * time.Millisecond)
+		for _, e := range errs {
+			if e != nil {
+				obs.WriteErr = append(obs.WriteErr, e.Error())
+			}
+		}
+		gw.mu.Lock()
+		w.Write(gw.c13Buf.Bytes())
+		gw.mu.Unlock()
+		in.Writes = nil
+	}
+	nWrites := len(types)
 	for _, wr := range in.Writes {
 		switch wr.T {
 		case "msg":
@@ -315,7 +380,57 @@ func c13Run(in c13In, rng *vrng) (obs c13Obs) {
 	}
 	r := &c13Chunked{data: append([]byte{}, w.Bytes()...), chunk: in.Chunk, rng: rng}
 	rs := newStream(r, nil, nil)
-	for i := 0; i < len(in.Writes)+3; i++ {
+	if !in.Concurrent {
+		nWrites = len(in.Writes)
+	}
+	wireAll := append([]byte{}, w.Bytes()...)
+	defer func() {
+		if !in.Concurrent {
+			return
+		}
+		// list the reads (and the frames they came from) in the order of the writes they equal
+		var frames [][]byte
+		for b := wireAll; len(b) >= 4; {
+			n := int(binary.BigEndian.Uint32(b[:4]))
+			if len(b) < 4+n {
+				break
+			}
+			frames = append(frames, b[:4+n])
+			b = b[4+n:]
+		}
+		type rf struct {
+			r c13Read
+			f []byte
+		}
+		var pend, ordered []rf
+		for i, r := range obs.Reads {
+			x := rf{r: r}
+			if i < len(frames) {
+				x.f = frames[i]
+			}
+			pend = append(pend, x)
+		}
+		for _, wr := range inWrites {
+			for k, x := range pend {
+				if x.r.T == "data" && x.r.P == wr.P {
+					ordered = append(ordered, x)
+					pend = append(pend[:k], pend[k+1:]...)
+					break
+				}
+			}
+		}
+		ordered = append(ordered, pend...)
+		obs.Reads = obs.Reads[:0]
+		var wire []byte
+		for _, x := range ordered {
+			obs.Reads = append(obs.Reads, x.r)
+			wire = append(wire, x.f...)
+		}
+		if len(frames) == len(ordered) && len(wire) <= 4096 {
+			obs.Wire = hex.EncodeToString(wire)
+		}
+	}()
+	for i := 0; i < nWrites+3; i++ {
 		ty := "bytes"
 		if i < len(types) {
 			ty = types[i]
@@ -385,7 +500,22 @@ func TestVerifC13(t *testing.T) {
 		return hex.EncodeToString(b)
 	}
 	msg := func(ty string, m proto.Message) c13Write { return c13Write{T: "msg", Ty: ty, P: mar(m)} }
+	// a message carrying fields this build does not know (a peer on a newer compatible version)
+	unknown := func(m proto.Message) proto.Message {
+		u := []byte{0xc0, 0x3e, 0x2a} // field 1000, varint 42
+		if rng.chance(50) {
+			u = append(u, 0xca, 0x3e, 0x03, 'n', 'e', 'w') // field 1001, bytes "new"
+		}
+		m.ProtoReflect().SetUnknown(u)
+		return m
+	}
 	sample := func() c13Write {
+		if rng.chance(12) {
+			if rng.chance(50) {
+				return msg("bytes", unknown(wrapperspb.Bytes(rng.bytes(rng.intn(40)))))
+			}
+			return msg("bid", unknown(&preconfpb.Bid{TxHash: "ab", BidAmount: "7", BlockNumber: 3, Digest: rng.bytes(32), Signature: rng.bytes(65)}))
+		}
 		switch rng.intn(9) {
 		case 0:
 			return msg("empty", &emptypb.Empty{})
@@ -461,6 +591,15 @@ func TestVerifC13(t *testing.T) {
 		in := c13In{Tag: "handler-error", Writes: []c13Write{{T: "error", Code: 2, Msg: hexs(m), Via: "plain"}}, Chunk: 0}
 		out.emit(in, c13Run(in, rng))
 		in = c13In{Tag: "handler-error", Writes: []c13Write{{T: "error", Code: 2, Msg: hexs(m + ": context canceled"), Via: "wrapped-cancel"}}, Chunk: 0}
+		out.emit(in, c13Run(in, rng))
+	}
+	// several writers on one stream while the transport is not draining
+	for i := 0; i < vcount(12, 200); i++ {
+		var ws []c13Write
+		for k := 0; k < 2+rng.intn(4); k++ {
+			ws = append(ws, msg("bytes", wrapperspb.Bytes(append([]byte{byte('A' + k)}, rng.bytes(1+rng.intn(200))...))))
+		}
+		in := c13In{Tag: "concurrent-writers", Writes: ws, Chunk: 0, Concurrent: true}
 		out.emit(in, c13Run(in, rng))
 	}
 	// slow handlers: the verdict comes, or the peer's message is read, after the handler has been
